@@ -222,12 +222,31 @@ def main():
         shutil.copy(os.path.join(VERIF, "bin", "vh"), vhbin)
         fcntl.flock(lockf, fcntl.LOCK_UN)
         tmo = 900 if tier == "quick" else 7200
-        rc, out = sh([vhbin, prop, "-tier", tier, "-seed", str(seed), "-out", work], tmo)
+        env2 = dict(ENV)
+        if prop == "C19":
+            # race-detector build of the same harness
+            fcntl.flock(lockf, fcntl.LOCK_EX)
+            rc, out = sh("go build -race -tags verif -o %s ./cmd/vh" % os.path.join(VERIF, "bin", "vhrace"), 1800,
+                         cwd=os.path.join(VERIF, "harness"))
+            if rc == 0:
+                shutil.copy(os.path.join(VERIF, "bin", "vhrace"), vhbin)
+            else:
+                broken.append(("harness-build(race)", out[-2000:]))
+            fcntl.flock(lockf, fcntl.LOCK_UN)
+            env2["GORACE"] = "halt_on_error=0 exitcode=0 log_path=%s" % os.path.join(work, "race")
+        rc, out = sh([vhbin, prop, "-tier", tier, "-seed", str(seed), "-out", work], tmo, env=env2)
         log.append(out[-2000:])
         try:
             oracle = json.load(open(os.path.join(work, "oracle.json")))
         except Exception as e:
             oracle["violations"] = oracle.get("violations") or []
+        racelogs = glob.glob(os.path.join(work, "race.*"))
+        if racelogs:
+            txt = open(racelogs[0], errors="replace").read()
+            oracle.setdefault("violations", [])
+            oracle["violations"] = (oracle["violations"] or []) + [{
+                "property": prop, "kind": "data-race", "detail": txt[:1500],
+                "replay": {"how": "go build -race -tags verif ./cmd/vh && vh C19", "log": txt[:6000]}}]
         if rc != 0:
             # a crash of the harness is a crash of the implementation under test
             # (panics are recovered per case where the property speaks of them)
@@ -271,8 +290,14 @@ def main():
 
     lines = []
     exit_code = 0
-    for v in known_hits[:5]:
-        lines.append("KNOWN-FINDING: property=%s %s: %s" % (prop, v.get("kind"), (v.get("detail") or "")[:200]))
+    seen_classes = set()
+    for v in known_hits:
+        if v.get("kind") in seen_classes:
+            continue
+        seen_classes.add(v.get("kind"))
+        n_same = sum(1 for x in known_hits if x.get("kind") == v.get("kind"))
+        lines.append("KNOWN-FINDING: property=%s %s (%d inputs of this class in this run): %s" % (
+            prop, v.get("kind"), n_same, (v.get("detail") or "")[:200]))
     if violations:
         v = violations[0]
         h = hashlib.sha256(json.dumps(v, sort_keys=True).encode()).hexdigest()[:12]
